@@ -301,7 +301,9 @@ func r181b(c *Ctx) {
 									// library functions that only read their argument while the call lasts (the lock is held: checked above)
 									if !map[string]bool{"slices.Contains": true, "slices.ContainsFunc": true, "slices.Index": true, "slices.IndexFunc": true, "slices.Clone": true,
 										"maps.Clone": true, "maps.Keys": false, "slices.Equal": true, "maps.Equal": true}[calleeName(x.Common())] {
-										bad = fmt.Sprintf("%s passes the container %s.%s to %s at %s", fname(fn), it.typ, it.field, calleeName(x.Common()), c.pos(r.Pos()))
+										if why := c.lazyIteratorConfined(li, x, fn, lock); why != "" {
+											bad = fmt.Sprintf("%s passes the container %s.%s to %s at %s%s", fname(fn), it.typ, it.field, calleeName(x.Common()), c.pos(r.Pos()), why)
+										}
 									}
 								}
 							}
@@ -318,6 +320,53 @@ func r181b(c *Ctx) {
 			return fmt.Sprintf("%d uses of values loaded from the field, all while the lock is held, none escaping", n)
 		}())
 	}
+}
+
+// lazyIteratorConfined: the call hands the container to a library function that returns an iterator over it (maps.All,
+// maps.Keys, ...): the container is read when the iterator runs. That is confined to the lock when the iterator is only
+// returned by fn, and every caller of fn runs it at once (range-over-func: `it(yield)`) while holding the lock.
+// Returns "" when confined, else the reason.
+func (c *Ctx) lazyIteratorConfined(li *LockInfo, call ssa.CallInstruction, fn *ssa.Function, lock *types.Var) string {
+	if !map[string]bool{"maps.All": true, "maps.Keys": true, "maps.Values": true, "slices.All": true, "slices.Values": true}[calleeName(call.Common())] {
+		return " (not a function known to only read its argument while the call lasts)"
+	}
+	v, ok := call.(ssa.Value)
+	if !ok || v.Referrers() == nil {
+		return " (iterator not used as a value)"
+	}
+	for _, r := range *v.Referrers() {
+		switch r.(type) {
+		case *ssa.Return, *ssa.DebugRef:
+		default:
+			return " (the iterator over the container is kept or used other than by returning it)"
+		}
+	}
+	n := 0
+	for _, g := range c.modFuncs {
+		for _, cs := range callsTo(g, fn) {
+			n++
+			rv, ok := cs.instr.(ssa.Value)
+			if !ok || rv.Referrers() == nil {
+				return " (a caller discards or defers the iterator)"
+			}
+			for _, r := range *rv.Referrers() {
+				if _, isDbg := r.(*ssa.DebugRef); isDbg {
+					continue
+				}
+				run, isCall := r.(*ssa.Call)
+				if !isCall || run.Call.Value != rv {
+					return fmt.Sprintf(" (%s keeps the iterator instead of running it at once, at %s)", fname(g), c.pos(r.Pos()))
+				}
+				if !li.holds(run, lock, modeR) {
+					return fmt.Sprintf(" (%s runs the iterator without %s at %s)", fname(g), lockName(lock), c.pos(r.Pos()))
+				}
+			}
+		}
+	}
+	if n == 0 {
+		return " (no caller found)"
+	}
+	return ""
 }
 
 type lockEdge struct {
